@@ -98,6 +98,15 @@ func insideTree() *vfs.Node {
 	t.Kids["p%41q"] = vfs.NewFile("percent")
 	t.Kids["%2e%2e"] = vfs.NewFile("dots")
 	t.Kids["q?x#y"] = vfs.NewFile("query")
+	// names ending in dots (an href "tidied" at its end names something else), incl. a collection called "..."
+	t.Kids["notes."] = vfs.NewFile("dotted")
+	vd := vfs.NewDir()
+	vd.Kids["x"] = vfs.NewFile("in-v1.")
+	t.Kids["v1."] = vd
+	t.Kids["v1"] = vfs.NewFile("the-other-v1")
+	dots := vfs.NewDir()
+	dots.Kids["y"] = vfs.NewFile("in-dots")
+	t.Kids["..."] = dots
 	return t
 }
 
